@@ -237,7 +237,7 @@ pub fn check_case(ctx: &Ctx, st: &mut Stats, c: &Case, tag: &str) {
     }
 }
 
-const BLANKS: [char; 23] = ['.', '_', 'x', '-', '*', '?', 'o', '"', '·', '□', '＿', 'é', 'a', 'b', 'e', 'g', 'A', 'F', 'z', 'Z', '\u{feff}', '\u{200b}', '\u{ad}'];
+const BLANKS: [char; 30] = ['.', '_', 'x', '-', '*', '?', 'o', '"', '·', '□', '＿', 'é', 'a', 'b', 'e', 'g', 'A', 'F', 'z', 'Z', '\u{feff}', '\u{200b}', '\u{ad}', '\u{2031}', '\u{2032}', '\u{2534}', '\u{131}', '\u{3030}', '\u{10031}', '\u{1f039}'];
 
 fn layout(rng: &mut Rng, root: usize, grid: &[usize]) -> String {
     let sq = root * root;
@@ -422,6 +422,17 @@ pub fn run(ctx: &Ctx) -> (Stats, Spec) {
             st.bump("large_inputs");
         }
     }
+    if std::path::Path::new("/dev/full").exists() {
+        for to_stdout in [false, true] {
+            st.evals += 1;
+            let args: Vec<&str> = if to_stdout { vec!["-r", "2"] } else { vec!["-r", "2", "/dev/stdin", "/dev/full"] };
+            match super::common::fails_on_full_device(ctx, "sudoku_gen", &args, Some(b"1.3...2.....4..."), to_stdout) {
+                Some(true) => st.bump("full_device_reported"),
+                Some(false) => st.violate("c17.run", "C17:success-although-nothing-could-be-written".into(), format!("sudoku_gen with the output on a full device ({}) exits 0", if to_stdout { "stdout" } else { "OUTPUT = /dev/full" }), json!({"kind": "full-device"})),
+                None => st.bump("watchdog(inconclusive case)"),
+            }
+        }
+    }
     // file names that are not valid UTF-8: same formula as through stdin / stdout
     {
         let puzzle = "1.3...2.....4...";
@@ -438,7 +449,7 @@ pub fn run(ctx: &Ctx) -> (Stats, Spec) {
         }
     }
     let spec = Spec {
-        rule: "root 1 exhaustively; root 2: the empty puzzle (288 grids) and random hint patterns (0-16 givens taken from valid grids, contradictory patterns incl. box-only conflicts, truncated and over-long inputs, puzzle texts spread over ~30 KiB of whitespace, 5 layouts with spaces/newlines/tabs/CRLF, 6 input channels (regular file, stdin at once / in small pieces, a named pipe or /dev/stdin as INPUT, file-to-file onto an existing longer file), 23 blank symbols incl. the double quote, format characters that are not whitespace (U+FEFF — a byte order mark when it comes first —, U+200B, U+00AD), multi-byte characters (·, □, ＿, é) and ASCII letters that are digits in a larger radix (a, b, e, g, A, F), ASCII and Unicode whitespace); root 3: puzzles with 30-60 givens derived from generated valid grids and the repository's example (exact model sets), sparse puzzles, root 4 and root 5 (one 25 x 25 board [quick], one per worker [thorough]) by structural probes (same digit twice in a unit, two digits / no digit in a cell, givens enforced, a valid grid satisfies, near-misses falsify). Exact = all models enumerated, decoded through _c_is_d and compared as a set with an independent backtracking solver. distinct = (root, normalised givens); non-trivial = at least one given and one blank.".into(),
+        rule: "root 1 exhaustively; root 2: the empty puzzle (288 grids) and random hint patterns (0-16 givens taken from valid grids, contradictory patterns incl. box-only conflicts, truncated and over-long inputs, puzzle texts spread over ~30 KiB of whitespace, 5 layouts with spaces/newlines/tabs/CRLF, 6 input channels (regular file, stdin at once / in small pieces, a named pipe or /dev/stdin as INPUT, file-to-file onto an existing longer file), 30 blank symbols incl. the double quote, characters whose code point ends in the byte / 16-bit value of an ASCII digit (U+2031, U+2534, U+0131, U+10031, ..), format characters that are not whitespace (U+FEFF — a byte order mark when it comes first —, U+200B, U+00AD), multi-byte characters (·, □, ＿, é) and ASCII letters that are digits in a larger radix (a, b, e, g, A, F), ASCII and Unicode whitespace); root 3: puzzles with 30-60 givens derived from generated valid grids and the repository's example (exact model sets), sparse puzzles, root 4 and root 5 (one 25 x 25 board [quick], one per worker [thorough]) by structural probes (same digit twice in a unit, two digits / no digit in a cell, givens enforced, a valid grid satisfies, near-misses falsify). Exact = all models enumerated, decoded through _c_is_d and compared as a set with an independent backtracking solver. distinct = (root, normalised givens); non-trivial = at least one given and one blank.".into(),
         assumptions: vec![
             "givens are digits between 1 and r^2; 0 and larger digits are outside the statement's domain and are not generated".into(),
             "rsbdd itself cannot solve even the 4x4 formula within minutes, so there is no engine cross-check here".into(),
